@@ -7,6 +7,8 @@
 package stx
 
 import (
+	"github.com/buildbarn/bb-storage/pkg/blobstore/buffer"
+	"sync/atomic"
 	"context"
 	"crypto/sha256"
 	"encoding/hex"
@@ -147,7 +149,7 @@ func NewStore(cfg Config) *Store {
 		arr = local.NewInMemoryLocationRecordArray(cfg.Records, s.LBM)
 	}
 	s.KLM = local.NewHashingKeyLocationMap(arr, cfg.Records, cfg.HashInit, uint32(cfg.MaxGet), cfg.MaxPut, "verif_stx")
-	s.Gate = &gatedLBM{LocationBlobMap: s.LBM}
+	s.Gate = &gatedLBM{LocationBlobMap: s.LBM, lock: &s.Lock}
 	switch cfg.Kind {
 	case "hier":
 		s.BA = local.NewHierarchicalCASBlobAccess(s.KLM, s.Gate, &s.Lock, nil)
@@ -164,6 +166,8 @@ func NewStore(cfg Config) *Store {
 // operation can be queued for the write lock and run in the gap.
 type gatedLBM struct {
 	local.LocationBlobMap
+	lock     *sync.RWMutex // the store's lock
+	unlocked atomic.Int64  // getters that were invoked while nobody held the store's lock
 	mu      sync.Mutex
 	reached chan struct{}
 	release chan struct{}
@@ -194,7 +198,16 @@ func (g *gatedLBM) Get(l local.Location) (local.LocationBlobGetter, bool) {
 			<-release
 		}
 	}
-	return getter, needsRefresh
+	// "Calls to Put() invalidate any of the LocationBlobGetters returned by Get()": a getter has to be invoked before the
+	// lock under which the location was looked up is dropped. Nobody holding the lock at that moment (TryLock succeeds)
+	// means a concurrent upload could have rotated the blocks in between.
+	return func(d digest.Digest) buffer.Buffer {
+		if g.lock != nil && g.lock.TryLock() {
+			g.lock.Unlock()
+			g.unlocked.Add(1)
+		}
+		return getter(d)
+	}, needsRefresh
 }
 
 // InitLine is the model's init command for this configuration.
